@@ -25,7 +25,7 @@ theorem ga_same {s s' : St} (h1 : s'.log = s.log) (h2 : s'.now = s.now) : GrowsA
   ⟨h2, [], by simp [hist_eq_of_log h1], fun x hx => by simp at hx⟩
 
 theorem ga_of_le {i : Nat} {s s' : St} (h : LE i s s') : GrowsAt s s' := by
-  obtain ⟨hn, _, Δ, hl, hp⟩ := h
+  obtain ⟨hn, _, Δ, hl, _, hp⟩ := h
   refine ⟨hn, _, hist_of_log s s' Δ hl, ?_⟩
   intro x hx
   simp only [List.mem_map, List.mem_reverse] at hx
